@@ -3,6 +3,8 @@
 import sys, os, re, json
 sys.path.insert(0, os.path.dirname(os.path.dirname(os.path.abspath(__file__))))
 sys.dont_write_bytecode = True
+from checks import extract as _ex
+_ex.ensure_facts('dev', quiet=True)
 from checks.facts import Facts, norm
 F = Facts(os.environ.get('FACTS', '/verif/.work/facts/dev'))
 pat = sys.argv[1]
